@@ -1258,14 +1258,20 @@ Proof.
 Qed.
 
 (* ------------------------------------------------------------------ a single pair (i, j):  x[j] = x[i] + off *)
-Lemma connected_single i j : connected [(i, j)] = [(i, [j])].
-Proof. reflexivity. Qed.
+Lemma connected_single i j : i <> j -> connected [(i, j)] = [(i, [j])].
+Proof.
+  intros H. unfold connected. cbn [fold_left connect_step].
+  apply Z.eqb_neq in H. rewrite H. reflexivity.
+Qed.
+
+Lemma connected_single_cyclic i : connected [(i, i)] = [].
+Proof. unfold connected. cbn [fold_left connect_step]. rewrite Z.eqb_refl. reflexivity. Qed.
 
 Lemma impose_as_single_eq i j off (x : list R) :
   i <> j ->
   impose_as NumR [(i, j)] off x = Some (bump NumR off (copy_entry NumR x j i) j).
 Proof.
-  intros Hij. unfold impose_as. rewrite connected_single.
+  intros Hij. unfold impose_as. rewrite connected_single by assumption.
   cbn [fold_left fst snd length offset_loop map].
   assert (E : Z.eqb j i = false) by (apply Z.eqb_neq; congruence).
   unfold dedupZ, memZ. cbn [dedup_by existsb fold_left filter orb]. rewrite E.
@@ -1275,7 +1281,7 @@ Qed.
 (* i = j loops for ever in Python; the model reports it as None *)
 Lemma impose_as_single_cyclic i off (x : list R) : impose_as NumR [(i, i)] off x = None.
 Proof.
-  unfold impose_as. rewrite connected_single.
+  unfold impose_as. rewrite connected_single_cyclic.
   cbn [fold_left fst snd length offset_loop map].
   unfold dedupZ, memZ.
   repeat (cbn [dedup_by existsb fold_left filter orb fst snd map offset_loop]; rewrite ?Z.eqb_refl).
@@ -1335,3 +1341,439 @@ Qed.
 
 Lemma impose_as_nil off (x : list R) : impose_as NumR [] off x = Some x.
 Proof. reflexivity. Qed.
+
+(* ================================================================== the repaired tools.connected (pure Z / list reasoning) *)
+Definition held (z : Z) (c : list (Z * list Z)) : Prop := exists kv, In kv c /\ holds z kv = true.
+(* keys pairwise distinct; every index is held (as key or member) by at most one group *)
+Definition wf (c : list (Z * list Z)) : Prop :=
+  NoDup (map fst c) /\
+  forall z kv kv', In kv c -> In kv' c -> holds z kv = true -> holds z kv' = true -> kv = kv'.
+Definition together (z z' : Z) (c : list (Z * list Z)) : Prop :=
+  exists kv, In kv c /\ holds z kv = true /\ holds z' kv = true.
+
+Lemma mo_memZ_In z l : memZ z l = true <-> In z l.
+Proof.
+  unfold memZ. rewrite existsb_exists. split.
+  - intros [u [Hu E]]. apply Z.eqb_eq in E. subst; assumption.
+  - intros H. exists z. split; [assumption|apply Z.eqb_refl].
+Qed.
+
+Lemma holds_iff z kv : holds z kv = true <-> z = fst kv \/ In z (snd kv).
+Proof. unfold holds. rewrite orb_true_iff, Z.eqb_eq, mo_memZ_In. tauto. Qed.
+
+Lemma mo_addZ_In z a l : In z (addZ a l) <-> z = a \/ In z l.
+Proof.
+  unfold addZ. destruct (memZ a l) eqn:E.
+  - apply mo_memZ_In in E. split; [tauto|]. intros [->|H]; assumption.
+  - rewrite in_app_iff. cbn [In]. split.
+    + intros [H|[H|[]]]; [right; assumption|left; symmetry; assumption].
+    + intros [H|H]; [right; left; symmetry; assumption|left; assumption].
+Qed.
+
+Definition mo_grow (zs v : list Z) : list Z := fold_left (fun v z => addZ z v) zs v.
+Definition mo_upd (k : Z) (zs : list Z) (kv : Z * list Z) : Z * list Z :=
+  if Z.eqb (fst kv) k then (fst kv, mo_grow zs (snd kv)) else kv.
+
+Lemma mo_grow_In z zs v : In z (mo_grow zs v) <-> In z v \/ In z zs.
+Proof.
+  unfold mo_grow. revert v; induction zs as [|a zs IH]; intros v; cbn [fold_left In].
+  - tauto.
+  - rewrite IH, mo_addZ_In. split.
+    + intros [[->|H]|H]; auto.
+    + intros [H|[->|H]]; auto.
+Qed.
+
+Lemma add_to_eq k zs c : add_to k zs c = map (mo_upd k zs) c.
+Proof. reflexivity. Qed.
+
+Lemma mo_upd_fst k zs kv : fst (mo_upd k zs kv) = fst kv.
+Proof. unfold mo_upd. destruct (Z.eqb (fst kv) k); reflexivity. Qed.
+
+Lemma mo_upd_holds z k zs kv :
+  holds z (mo_upd k zs kv) = true <-> holds z kv = true \/ (fst kv = k /\ In z zs).
+Proof.
+  unfold mo_upd. destruct (Z.eqb (fst kv) k) eqn:E.
+  - apply Z.eqb_eq in E. rewrite !holds_iff. cbn [fst snd]. rewrite mo_grow_In. tauto.
+  - apply Z.eqb_neq in E. tauto.
+Qed.
+
+Lemma add_to_keys k zs c : map fst (add_to k zs c) = map fst c.
+Proof. rewrite add_to_eq, map_map. apply map_ext. intros; apply mo_upd_fst. Qed.
+
+Lemma mo_key_inj (c : list (Z * list Z)) kv1 kv2 :
+  NoDup (map fst c) -> In kv1 c -> In kv2 c -> fst kv1 = fst kv2 -> kv1 = kv2.
+Proof.
+  induction c as [|a r IH]; intros Hn H1 H2 E; [contradiction|].
+  cbn [map] in Hn. inversion Hn as [|? ? Hna Hnr]; subst.
+  destruct H1 as [<-|H1], H2 as [<-|H2].
+  - reflexivity.
+  - exfalso. apply Hna. rewrite E. apply in_map; assumption.
+  - exfalso. apply Hna. rewrite <- E. apply in_map; assumption.
+  - apply IH; assumption.
+Qed.
+
+Lemma mo_nodup_map_filter {A B} (f : A -> B) (p : A -> bool) (l : list A) :
+  NoDup (map f l) -> NoDup (map f (filter p l)).
+Proof.
+  induction l as [|a r IH]; intros H; [constructor|].
+  cbn [map] in H. inversion H as [|? ? Ha Hr]; subst. cbn [filter].
+  destruct (p a); [|apply IH; assumption]. cbn [map]. constructor; [|apply IH; assumption].
+  intros Hin. apply Ha. apply in_map_iff in Hin. destruct Hin as [b [Hb Hin]].
+  apply filter_In in Hin. rewrite <- Hb. apply in_map. apply Hin.
+Qed.
+
+Lemma add_to_wf k zs c : wf c -> (forall z, In z zs -> ~ held z c) -> wf (add_to k zs c).
+Proof.
+  intros [Hk Hu] Hz. split; [rewrite add_to_keys; assumption|].
+  intros z kv kv' H1 H2 Hh1 Hh2. rewrite add_to_eq in H1, H2.
+  apply in_map_iff in H1. destruct H1 as [a [<- Ha]].
+  apply in_map_iff in H2. destruct H2 as [b [<- Hb]].
+  apply mo_upd_holds in Hh1. apply mo_upd_holds in Hh2.
+  destruct Hh1 as [Hh1|[E1 Z1]], Hh2 as [Hh2|[E2 Z2]].
+  - rewrite (Hu z a b); auto.
+  - exfalso. apply (Hz z Z2). exists a; auto.
+  - exfalso. apply (Hz z Z1). exists b; auto.
+  - rewrite (mo_key_inj c a b); auto. congruence.
+Qed.
+
+Lemma remove_key_in k c kv : In kv (remove_key k c) <-> In kv c /\ fst kv <> k.
+Proof. unfold remove_key. rewrite filter_In, negb_true_iff, Z.eqb_neq. tauto. Qed.
+
+Lemma remove_key_wf k c : wf c -> wf (remove_key k c).
+Proof.
+  intros [Hk Hu]. split; [apply mo_nodup_map_filter; assumption|].
+  intros z kv kv' H1 H2. apply remove_key_in in H1. apply remove_key_in in H2.
+  apply Hu; tauto.
+Qed.
+
+Lemma find_key_none z c : find_key z c = None -> ~ held z c.
+Proof.
+  unfold find_key. destruct (find (holds z) c) eqn:E; cbn [option_map]; [discriminate|].
+  intros _ [kv [Hin Hh]]. pose proof (find_none _ _ E kv Hin). congruence.
+Qed.
+
+Lemma find_key_some z c k : find_key z c = Some k -> exists kv, In kv c /\ fst kv = k /\ holds z kv = true.
+Proof.
+  unfold find_key. destruct (find (holds z) c) as [kv|] eqn:E; cbn [option_map]; [|discriminate].
+  intros H; inversion H; subst. apply find_some in E. exists kv. tauto.
+Qed.
+
+Lemma members_of_spec k c kv : NoDup (map fst c) -> In kv c -> fst kv = k -> members_of k c = snd kv.
+Proof.
+  intros Hn Hin E. unfold members_of. destruct (find (fun kv0 => Z.eqb (fst kv0) k) c) as [p|] eqn:F.
+  - apply find_some in F. destruct F as [Hp Ep]. apply Z.eqb_eq in Ep.
+    rewrite (mo_key_inj c p kv); auto. congruence.
+  - pose proof (find_none _ _ F kv Hin) as X. cbn in X. apply Z.eqb_neq in X. contradiction.
+Qed.
+
+Lemma mo_holds_in_zs z kv : holds z kv = true -> In z (snd kv ++ [fst kv]).
+Proof. rewrite holds_iff, in_app_iff. cbn [In]. intros [H|H]; auto. Qed.
+
+Lemma mo_zs_holds z kv : In z (snd kv ++ [fst kv]) -> holds z kv = true.
+Proof. rewrite holds_iff, in_app_iff. cbn [In]. intros [H|[H|[]]]; auto. Qed.
+
+Theorem connect_step_wf c ij : wf c -> wf (connect_step c ij).
+Proof.
+  intros Hw. destruct ij as [i j]. unfold connect_step.
+  destruct (Z.eqb i j) eqn:Eij; [assumption|].
+  destruct (find_key i c) as [ki|] eqn:Ei; destruct (find_key j c) as [kj|] eqn:Ej.
+  - destruct (Z.eqb ki kj) eqn:Ek; [assumption|]. apply Z.eqb_neq in Ek.
+    apply add_to_wf; [apply remove_key_wf; assumption|].
+    intros z Hz [kv [Hin Hh]]. apply remove_key_in in Hin. destruct Hin as [Hin Hne].
+    apply find_key_some in Ej. destruct Ej as [gj [Hgj [Egj Hj]]].
+    rewrite (members_of_spec kj c gj) in Hz by (apply Hw || assumption).
+    rewrite <- Egj in Hz. apply mo_zs_holds in Hz.
+    destruct Hw as [_ Hu]. rewrite (Hu z kv gj) in Hne; auto.
+  - apply add_to_wf; [assumption|]. intros z [<-|[]]. apply find_key_none; assumption.
+  - apply add_to_wf; [assumption|]. intros z [<-|[]]. apply find_key_none; assumption.
+  - apply find_key_none in Ei. apply find_key_none in Ej. destruct Hw as [Hk Hu]. split.
+    + rewrite map_app. cbn [map fst].
+      apply (Permutation_NoDup (Permutation_cons_append _ _)). constructor; [|assumption].
+      intros Hin. apply in_map_iff in Hin. destruct Hin as [kv [E Hin]].
+      apply Ei. exists kv. split; [assumption|]. apply holds_iff. left; symmetry; assumption.
+    + assert (X : forall z kv, In kv c -> holds z kv = true -> holds z (i, [j]) = true -> False).
+      { intros z kv Hin Hh Hg. apply holds_iff in Hg. cbn [fst snd In] in Hg.
+        destruct Hg as [->|[<-|[]]]; [apply Ei|apply Ej]; exists kv; auto. }
+      intros z kv kv' H1 H2 Hh1 Hh2. apply in_app_iff in H1. apply in_app_iff in H2. cbn [In] in H1, H2.
+      destruct H1 as [H1|[<-|[]]], H2 as [H2|[<-|[]]].
+      * apply (Hu z); assumption.
+      * exfalso. apply (X z kv); assumption.
+      * exfalso. apply (X z kv'); assumption.
+      * reflexivity.
+Qed.
+
+Lemma wf_nil : wf [].
+Proof. split; [constructor|]. intros z kv kv' []. Qed.
+
+Lemma connect_fold_wf pairs c : wf c -> wf (fold_left connect_step pairs c).
+Proof.
+  revert c; induction pairs as [|ij r IH]; intros c H; [assumption|].
+  cbn [fold_left]. apply IH, connect_step_wf, H.
+Qed.
+
+Theorem connected_wf pairs : wf (connected pairs).
+Proof. apply connect_fold_wf, wf_nil. Qed.
+
+(* ------------------------------------------------------------------ a pair ends up in one group *)
+Lemma add_to_together k zs c z z' : together z z' c -> together z z' (add_to k zs c).
+Proof.
+  intros [kv [Hin [H1 H2]]]. exists (mo_upd k zs kv). rewrite add_to_eq.
+  split; [apply in_map; assumption|]. rewrite !mo_upd_holds. tauto.
+Qed.
+
+Lemma connect_step_together_new c i j : wf c -> i <> j -> together i j (connect_step c (i, j)).
+Proof.
+  intros Hw Hij. unfold connect_step. apply Z.eqb_neq in Hij. rewrite Hij.
+  destruct (find_key i c) as [ki|] eqn:Ei; destruct (find_key j c) as [kj|] eqn:Ej.
+  - apply find_key_some in Ei. destruct Ei as [gi [Hgi [Egi Hi]]].
+    apply find_key_some in Ej. destruct Ej as [gj [Hgj [Egj Hj]]].
+    destruct (Z.eqb ki kj) eqn:Ek.
+    + apply Z.eqb_eq in Ek. exists gi. split; [assumption|]. split; [assumption|].
+      rewrite (mo_key_inj c gi gj); auto; [apply Hw|congruence].
+    + apply Z.eqb_neq in Ek. exists (mo_upd ki (members_of kj c ++ [kj]) gi). rewrite add_to_eq. split.
+      * apply in_map. apply remove_key_in. split; [assumption|congruence].
+      * rewrite !mo_upd_holds. split; [left; assumption|]. right. split; [assumption|].
+        rewrite (members_of_spec kj c gj) by (apply Hw || assumption). rewrite <- Egj.
+        apply mo_holds_in_zs; assumption.
+  - apply find_key_some in Ei. destruct Ei as [gi [Hgi [Egi Hi]]].
+    exists (mo_upd ki [j] gi). rewrite add_to_eq. split; [apply in_map; assumption|].
+    rewrite !mo_upd_holds. split; [left; assumption|right; split; [assumption|left; reflexivity]].
+  - apply find_key_some in Ej. destruct Ej as [gj [Hgj [Egj Hj]]].
+    exists (mo_upd kj [i] gj). rewrite add_to_eq. split; [apply in_map; assumption|].
+    rewrite !mo_upd_holds. split; [right; split; [assumption|left; reflexivity]|left; assumption].
+  - exists (i, [j]). split; [apply in_or_app; right; left; reflexivity|].
+    rewrite !holds_iff. cbn [fst snd In]. auto.
+Qed.
+
+Lemma connect_step_together_keep c ij z z' : wf c -> together z z' c -> together z z' (connect_step c ij).
+Proof.
+  intros Hw Ht. destruct ij as [i j]. unfold connect_step.
+  destruct (Z.eqb i j); [assumption|].
+  destruct (find_key i c) as [ki|] eqn:Ei; destruct (find_key j c) as [kj|] eqn:Ej.
+  - destruct (Z.eqb ki kj) eqn:Ek; [assumption|]. apply Z.eqb_neq in Ek.
+    destruct Ht as [kv [Hin [H1 H2]]].
+    destruct (Z.eq_dec (fst kv) kj) as [E|E].
+    + apply find_key_some in Ei. destruct Ei as [gi [Hgi [Egi Hi]]].
+      exists (mo_upd ki (members_of kj c ++ [kj]) gi). rewrite add_to_eq. split.
+      * apply in_map. apply remove_key_in. split; [assumption|congruence].
+      * rewrite (members_of_spec kj c kv) by (apply Hw || assumption). rewrite <- E.
+        rewrite !mo_upd_holds. split; right; (split; [congruence|apply mo_holds_in_zs; assumption]).
+    + apply add_to_together. exists kv. split; [apply remove_key_in; split; assumption|tauto].
+  - apply add_to_together; assumption.
+  - apply add_to_together; assumption.
+  - destruct Ht as [kv [Hin H]]. exists kv. split; [apply in_or_app; left; assumption|assumption].
+Qed.
+
+Lemma connect_fold_together pairs c z z' :
+  wf c -> together z z' c -> together z z' (fold_left connect_step pairs c).
+Proof.
+  revert c; induction pairs as [|ij r IH]; intros c Hw Ht; [assumption|].
+  cbn [fold_left]. apply IH; [apply connect_step_wf; assumption|apply connect_step_together_keep; assumption].
+Qed.
+
+Theorem connected_pair_same_group pairs i j :
+  In (i, j) pairs -> i <> j ->
+  exists kv, In kv (connected pairs) /\ holds i kv = true /\ holds j kv = true.
+Proof.
+  intros Hin Hij. apply in_split in Hin. destruct Hin as [l1 [l2 ->]].
+  unfold connected. rewrite fold_left_app. cbn [fold_left].
+  assert (Hw : wf (fold_left connect_step l1 [])) by (apply connect_fold_wf, wf_nil).
+  apply connect_fold_together.
+  - apply connect_step_wf; assumption.
+  - apply connect_step_together_new; assumption.
+Qed.
+
+(* ------------------------------------------------------------------ only indices of the pairs occur *)
+Lemma add_to_held z k zs c : held z (add_to k zs c) -> held z c \/ In z zs.
+Proof.
+  intros [kv [Hin Hh]]. rewrite add_to_eq in Hin. apply in_map_iff in Hin. destruct Hin as [a [<- Ha]].
+  apply mo_upd_holds in Hh. destruct Hh as [Hh|[_ Hz]]; [left; exists a; auto|right; assumption].
+Qed.
+
+Lemma connect_step_held z c ij : held z (connect_step c ij) -> held z c \/ z = fst ij \/ z = snd ij.
+Proof.
+  destruct ij as [i j]. unfold connect_step. cbn [fst snd].
+  destruct (Z.eqb i j); [auto|].
+  destruct (find_key i c) as [ki|] eqn:Ei; destruct (find_key j c) as [kj|] eqn:Ej.
+  - destruct (Z.eqb ki kj); [auto|]. intros H. apply add_to_held in H. left. destruct H as [H|H].
+    + destruct H as [kv [Hin Hh]]. apply remove_key_in in Hin. exists kv. tauto.
+    + apply find_key_some in Ej. destruct Ej as [gj [Hgj [Egj Hj]]].
+      apply in_app_iff in H. cbn [In] in H. destruct H as [H|[<-|[]]].
+      * unfold members_of in H. destruct (find (fun kv0 => Z.eqb (fst kv0) kj) c) as [p|] eqn:F; [|contradiction].
+        apply find_some in F. exists p. split; [apply F|]. apply holds_iff. right; assumption.
+      * exists gj. split; [assumption|]. apply holds_iff. left; symmetry; assumption.
+  - intros H. apply add_to_held in H. destruct H as [H|[<-|[]]]; auto.
+  - intros H. apply add_to_held in H. destruct H as [H|[<-|[]]]; auto.
+  - intros [kv [Hin Hh]]. apply in_app_iff in Hin. cbn [In] in Hin. destruct Hin as [Hin|[<-|[]]].
+    + left. exists kv; auto.
+    + apply holds_iff in Hh. cbn [fst snd In] in Hh. destruct Hh as [->|[<-|[]]]; auto.
+Qed.
+
+Lemma connect_fold_held z pairs c :
+  held z (fold_left connect_step pairs c) -> held z c \/ exists ij, In ij pairs /\ (z = fst ij \/ z = snd ij).
+Proof.
+  revert c; induction pairs as [|ij r IH]; intros c H; [left; assumption|].
+  cbn [fold_left] in H. apply IH in H. destruct H as [H|[ij' [Hin Hz]]].
+  - apply connect_step_held in H. destruct H as [H|H]; [left; assumption|].
+    right. exists ij. split; [left; reflexivity|assumption].
+  - right. exists ij'. split; [right; assumption|assumption].
+Qed.
+
+Theorem connected_only_mentions z pairs :
+  held z (connected pairs) -> exists ij, In ij pairs /\ (z = fst ij \/ z = snd ij).
+Proof.
+  intros H. apply connect_fold_held in H. destruct H as [[kv [[] _]]|H]; assumption.
+Qed.
+
+(* ================================================================== impose_as with offset 0: tied entries become equal *)
+Lemma mo_norm_idx_nonneg n z : (0 <= z < Z.of_nat n)%Z -> norm_idx n z = Some (Z.to_nat z).
+Proof.
+  intros [A B]. unfold norm_idx. apply Z.leb_le in A. apply Z.ltb_lt in B. rewrite A, B. reflexivity.
+Qed.
+
+Lemma mo_set_nth_self {A} (l : list A) i d : set_nth l i (nth i l d) = l.
+Proof.
+  revert i; induction l as [|a r IH]; intros i; [reflexivity|].
+  destruct i; cbn [set_nth nth]; [reflexivity|]. rewrite IH. reflexivity.
+Qed.
+
+Lemma bump_zero (x : list R) i : bump NumR 0%R x i = x.
+Proof.
+  unfold bump. mo_case_norm; [|reflexivity]. cbn [add NumR zero]. rewrite Rplus_0_r. apply mo_set_nth_self.
+Qed.
+
+Lemma mo_fold_id {A B} (f : A -> B -> A) (bs : list B) (x : A) :
+  (forall a b, f a b = a) -> fold_left f bs x = x.
+Proof. intros H. revert x; induction bs as [|b bs IH]; intros x; [reflexivity|]. cbn [fold_left]. rewrite H. apply IH. Qed.
+
+Lemma offset_loop_zero fuel pairs (x y : list R) : offset_loop NumR fuel 0%R pairs x = Some y -> y = x.
+Proof.
+  revert pairs x; induction fuel as [|f IH]; intros pairs x.
+  - destruct pairs; cbn; [intros H; inversion H; reflexivity|discriminate].
+  - destruct pairs as [|pr pairs]; [cbn; intros H; inversion H; reflexivity|].
+    cbn [offset_loop]. rewrite (mo_fold_id (bump NumR 0%R)) by (intros; apply bump_zero). apply IH.
+Qed.
+
+Lemma copy_entry_inrange (a : list R) m k :
+  (0 <= k < Z.of_nat (length a))%Z -> (0 <= m < Z.of_nat (length a))%Z ->
+  copy_entry NumR a m k = set_nth a (Z.to_nat m) (nth (Z.to_nat k) a 0%R).
+Proof.
+  intros Hk Hm. unfold copy_entry. change (T NumR) with R.
+  rewrite (mo_norm_idx_nonneg _ _ Hk), (mo_norm_idx_nonneg _ _ Hm). reflexivity.
+Qed.
+
+(* one group: every member receives the key's value; the key's entry and all other entries are unchanged *)
+Lemma mo_group_spec (k : Z) (d : R) n (ms : list Z) : forall (a : list R),
+  length a = n -> (0 <= k < Z.of_nat n)%Z -> (forall m, In m ms -> (0 <= m < Z.of_nat n)%Z) ->
+  length (fold_left (fun a m => copy_entry NumR a m k) ms a) = n /\
+  nth (Z.to_nat k) (fold_left (fun a m => copy_entry NumR a m k) ms a) d = nth (Z.to_nat k) a d /\
+  (forall m, In m ms -> nth (Z.to_nat m) (fold_left (fun a m => copy_entry NumR a m k) ms a) d = nth (Z.to_nat k) a d) /\
+  (forall p, (forall m, In m ms -> Z.to_nat m <> p) -> nth p (fold_left (fun a m => copy_entry NumR a m k) ms a) d = nth p a d).
+Proof.
+  induction ms as [|m ms IH]; intros a Ha Hk Hms.
+  - cbn [fold_left]. repeat split; auto. intros m [].
+  - cbn [fold_left].
+    assert (Hm : (0 <= m < Z.of_nat n)%Z) by (apply Hms; left; reflexivity).
+    assert (C : copy_entry NumR a m k = set_nth a (Z.to_nat m) (nth (Z.to_nat k) a 0%R)).
+    { apply copy_entry_inrange; rewrite Ha; assumption. }
+    rewrite C. set (a' := set_nth a (Z.to_nat m) (nth (Z.to_nat k) a 0%R)).
+    assert (La : length a' = n) by (unfold a'; rewrite mo_set_nth_length; assumption).
+    assert (Pm : Z.to_nat m < length a) by (rewrite Ha; lia).
+    assert (Pk : Z.to_nat k < length a) by (rewrite Ha; lia).
+    assert (Ka : nth (Z.to_nat k) a' d = nth (Z.to_nat k) a d).
+    { unfold a'. destruct (Nat.eq_dec (Z.to_nat k) (Z.to_nat m)) as [E|E].
+      - rewrite E at 1. rewrite mo_set_nth_same by assumption. apply nth_indep; assumption.
+      - apply mo_set_nth_other; assumption. }
+    destruct (IH a' La Hk) as [L [K [M O]]].
+    { intros m' Hm'. apply Hms. right; assumption. }
+    split; [assumption|]. split; [rewrite K; assumption|]. split.
+    + intros m0 [<-|Hm0]; [|rewrite M by assumption; assumption].
+      destruct (in_dec Z.eq_dec m ms) as [I|I]; [rewrite M by assumption; assumption|].
+      rewrite O.
+      * unfold a'. rewrite mo_set_nth_same by assumption. apply nth_indep; assumption.
+      * intros m' Hm'. assert ((0 <= m' < Z.of_nat n)%Z) by (apply Hms; right; assumption).
+        assert (m' <> m) by (intros ->; contradiction). lia.
+    + intros p Hp. rewrite O.
+      * unfold a'. apply mo_set_nth_other. intros ->. apply (Hp m); [left; reflexivity|reflexivity].
+      * intros m' Hm'. apply Hp. right; assumption.
+Qed.
+
+Definition mo_step (acc : list R) (kv : Z * list Z) : list R :=
+  fold_left (fun a k => copy_entry NumR a k (fst kv)) (snd kv) acc.
+
+Lemma wf_tail kv cs : wf (kv :: cs) -> wf cs /\ (forall z, holds z kv = true -> ~ held z cs).
+Proof.
+  intros [Hk Hu]. cbn [map] in Hk. inversion Hk as [|? ? Hn Hr]; subst. split; [split|].
+  - assumption.
+  - intros z a b Ha Hb. apply Hu; right; assumption.
+  - intros z Hz [kv' [Hin Hh]]. apply Hn.
+    rewrite (Hu z kv kv'); [apply in_map; assumption|left; reflexivity|right; assumption|assumption|assumption].
+Qed.
+
+(* phase 1 of impose_as on well-formed groups with in-range non-negative labels *)
+Lemma mo_phase1_spec (d : R) n (c : list (Z * list Z)) : forall (x : list R),
+  length x = n -> wf c -> (forall z, held z c -> (0 <= z < Z.of_nat n)%Z) ->
+  length (fold_left mo_step c x) = n /\
+  (forall kv z, In kv c -> holds z kv = true ->
+     nth (Z.to_nat z) (fold_left mo_step c x) d = nth (Z.to_nat (fst kv)) x d) /\
+  (forall p, (forall z, held z c -> Z.to_nat z <> p) -> nth p (fold_left mo_step c x) d = nth p x d).
+Proof.
+  induction c as [|kv cs IH]; intros x Hx Hw Hr.
+  - cbn [fold_left]. repeat split; auto. intros kv z [].
+  - cbn [fold_left]. destruct (wf_tail _ _ Hw) as [Hw' Hdis].
+    assert (Hheld : forall z, holds z kv = true -> held z (kv :: cs)).
+    { intros z Hz. exists kv. split; [left; reflexivity|assumption]. }
+    assert (Hk : (0 <= fst kv < Z.of_nat n)%Z).
+    { apply Hr, Hheld, holds_iff. left; reflexivity. }
+    assert (Hms : forall m, In m (snd kv) -> (0 <= m < Z.of_nat n)%Z).
+    { intros m Hm. apply Hr, Hheld, holds_iff. right; assumption. }
+    destruct (mo_group_spec (fst kv) d n (snd kv) x Hx Hk Hms) as [GL [GK [GM GO]]].
+    fold (mo_step x kv) in GL, GK, GM, GO.
+    assert (Hr' : forall z, held z cs -> (0 <= z < Z.of_nat n)%Z).
+    { intros z [kv' [Hin Hh]]. apply Hr. exists kv'. split; [right; assumption|assumption]. }
+    destruct (IH (mo_step x kv) GL Hw' Hr') as [L [M O]].
+    split; [assumption|]. split.
+    + intros kv0 z [<-|Hin] Hz.
+      * rewrite O.
+        -- apply holds_iff in Hz. destruct Hz as [->|Hz]; [assumption|apply GM; assumption].
+        -- intros z' Hz'. assert (z' <> z) by (intros ->; apply (Hdis z Hz Hz')).
+           pose proof (Hr' z' Hz'). pose proof (Hr z (Hheld z Hz)). lia.
+      * rewrite (M kv0 z Hin Hz). apply GO. intros m Hm.
+        assert (Hm' : holds m kv = true) by (apply holds_iff; right; assumption).
+        assert (Hk0 : held (fst kv0) cs).
+        { exists kv0. split; [assumption|]. apply holds_iff. left; reflexivity. }
+        assert (m <> fst kv0) by (intros ->; apply (Hdis _ Hm' Hk0)).
+        pose proof (Hms m Hm). pose proof (Hr' _ Hk0). lia.
+    + intros p Hp. rewrite O.
+      * apply GO. intros m Hm. apply Hp, Hheld, holds_iff. right; assumption.
+      * intros z [kv' [Hin Hh]]. apply Hp. exists kv'. split; [right; assumption|assumption].
+Qed.
+
+Lemma impose_as_zero_offset_eq mask (x y : list R) :
+  impose_as NumR mask 0%R x = Some y -> y = fold_left mo_step (connected mask) x.
+Proof. unfold impose_as. intros H. apply offset_loop_zero in H. exact H. Qed.
+
+Theorem impose_as_zero_offset_tied mask (x y : list R) i j d :
+  (forall ij, In ij mask -> (0 <= fst ij < Z.of_nat (length x))%Z /\ (0 <= snd ij < Z.of_nat (length x))%Z) ->
+  impose_as NumR mask 0%R x = Some y -> In (i, j) mask ->
+  nth (Z.to_nat j) y d = nth (Z.to_nat i) y d.
+Proof.
+  intros Hr H Hin. destruct (Z.eq_dec i j) as [->|Hij]; [reflexivity|].
+  rewrite (impose_as_zero_offset_eq _ _ _ H).
+  destruct (connected_pair_same_group mask i j Hin Hij) as [kv [Hkv [Hi Hj]]].
+  destruct (mo_phase1_spec d (length x) (connected mask) x eq_refl (connected_wf mask)) as [_ [M _]].
+  - intros z Hz. apply connected_only_mentions in Hz. destruct Hz as [ij [Hm [->| ->]]]; apply (Hr ij Hm).
+  - rewrite (M kv j Hkv Hj), (M kv i Hkv Hi). reflexivity.
+Qed.
+
+(* more precisely: after the transform every held index carries the ORIGINAL value of its group's key *)
+Theorem impose_as_zero_offset_group_value mask (x y : list R) kv z d :
+  (forall ij, In ij mask -> (0 <= fst ij < Z.of_nat (length x))%Z /\ (0 <= snd ij < Z.of_nat (length x))%Z) ->
+  impose_as NumR mask 0%R x = Some y -> In kv (connected mask) -> holds z kv = true ->
+  nth (Z.to_nat z) y d = nth (Z.to_nat (fst kv)) x d.
+Proof.
+  intros Hr H Hkv Hz. rewrite (impose_as_zero_offset_eq _ _ _ H).
+  destruct (mo_phase1_spec d (length x) (connected mask) x eq_refl (connected_wf mask)) as [_ [M _]].
+  - intros z' Hz'. apply connected_only_mentions in Hz'. destruct Hz' as [ij [Hm [->| ->]]]; apply (Hr ij Hm).
+  - apply M; assumption.
+Qed.
